@@ -748,6 +748,17 @@ impl<'a> World<'a> {
                         return;
                     }
                 }
+                if self.conns[conn].oversize_at == Some(j) {
+                    let n = match pk {
+                        Pk::Publish { payload, .. } => payload.len(),
+                        _ => 0,
+                    };
+                    self.violate(
+                        "oversize_frame_accepted:through_event_loop".into(),
+                        format!("the broker sent a PUBLISH with a {n}-byte payload on connection #{conn}; the client's incoming limit is 10240 bytes, yet poll() surfaced the packet"),
+                    );
+                    return;
+                }
                 self.conns[conn].surfaced = j + 1;
                 self.nontrivial_marks |= 16;
                 if let Some(u) = self.conns[conn].first_unsol {
